@@ -42,7 +42,15 @@ def singular_exprs(g: gen.Gen, r):
     x = g.view()
     a = g.pool.scalars[0]
     ops = ["abs", "sqrt", "log", "tan", "exp", "sinh", "cosh", "sin", "cos", "tanh"]
-    k = r.randrange(9)
+    k = r.randrange(12)
+    b = g.pool.scalars[1]
+    if k == 9:
+        # singular MIXED partials: d2/da db is singular on a = 0 while the diagonal in b is regular
+        return gen.FN[r.choice(["sqrt", "log", "abs"])](a) * b + 3 * a * b + b ** 2
+    if k == 10:
+        return b / a + b * b + gen.FN["sqrt"](a) * x[0]
+    if k == 11:
+        return (a ** r.choice([0.5, -1, 1.5])) * (b + 2) + 5e17 * b        # a regular entry beyond +-1e16 next to singular ones
     if k == 0:
         return gen.FN[r.choice(ops)](x).sum()
     if k == 1:
@@ -60,6 +68,54 @@ def singular_exprs(g: gen.Gen, r):
     if k == 7:
         return gen.FN["sqrt"](x.dot(x)) + gen.FN["abs"](a * 2)
     return gen.FN["exp"](a * 10) + gen.FN["sqrt"](a)
+
+
+SAN_DEFS = """
+Definition xq := xfloat Q.
+Definition xeqb (a b : xq) : bool :=
+  match a, b with
+  | Fin x, Fin y => Qeq_bool x y
+  | PInf, PInf | NInf, NInf | NaN, NaN => true
+  | _, _ => false
+  end.
+Definition san (v : list xq) : list xq := sanitize (QQ 0 1) (QQ 10000000000000000 1) (QQ (-10000000000000000) 1) v.
+"""
+SAN_CHECKER = "fun c => match c with (v, seen) => list_eqb xeqb (san v) seen end"
+SAN_TYPE = "list xq * list xq"
+
+
+def xq(v):
+    v = float(v)
+    if np.isnan(v):
+        return "NaN"
+    if np.isinf(v):
+        return "PInf" if v > 0 else "NInf"
+    return f"(Fin {ser.q(v)})"
+
+
+def sanitiser_cases(rng, n):
+    """The sanitiser itself, run on arrays mixing NaN / +-Inf with ordinary, huge (beyond +-1e16) and tiny finite values,
+    in 1-D and 2-D, against Sanitize.sanitize: special entries replaced, every finite entry returned bit for bit."""
+    import optyx.core.compiler as C
+    finite = [0.0, -0.0, 1.5, -2.25, 1e16, -1e16, 5e17, -3e18, 1e300, -1e300, 1e-300, 9.999999999999998e15, 1.0000000000000002e16, 123456.789]
+    bad = [float("nan"), float("inf"), float("-inf")]
+    cases, meta = [], []
+    for i in range(n):
+        m = rng.randint(1, 6)
+        p_bad = rng.choice([0.0, 0.0, 0.3, 0.6, 1.0])
+        vals = [rng.choice(bad) if rng.random() < p_bad else rng.choice(finite) for _ in range(m)]
+        arr = np.array(vals, dtype=float)
+        if rng.random() < 0.3 and m % 2 == 0:
+            arr = arr.reshape(2, m // 2)
+        before = arr.copy()
+        with np.errstate(all="ignore"), warnings.catch_warnings():
+            warnings.simplefilter("ignore")
+            out = np.asarray(C._sanitize_derivatives(arr), dtype=float)
+        flat_out = out.reshape(-1)
+        cases.append(f"({ser.lst(xq(v) for v in before.reshape(-1))}, {ser.lst(xq(v) for v in flat_out)})")
+        meta.append({"input": [repr(float(v)) for v in before.reshape(-1)], "output": [repr(float(v)) for v in flat_out],
+                     "shape": list(before.shape), "shape_kept": list(out.shape) == list(before.shape)})
+    return cases, meta
 
 
 def run(rep: vk.Report):
@@ -169,6 +225,16 @@ def run(rep: vk.Report):
                             nums.append(f"({te}, (Some {ser.s(names[a_])}, Some {ser.s(names[b_])}), {common.pts_term(pt)}, [], [{ser.q(float(H[a_, b_]))}])")
                             nmeta.append({"what": f"hess[{names[a_]},{names[b_]}]", "expr": repr(e)[:300], "point": pt,
                                           "value": float(H[a_, b_]), "path": hf.__name__})
+    import coqrun
+    scases, smeta = sanitiser_cases(rng, 400 if rep.tier == "quick" else 20000)
+    sfails = coqrun.run_cases("Sanitize", SAN_DEFS, SAN_TYPE, scases, SAN_CHECKER)
+    for i in sfails[:20]:
+        rep.violation({"kind": "correspondence", "obligation": "_sanitize_derivatives = Sanitize.sanitize (NaN -> 0, +-Inf -> +-1e16, finite entries unchanged)",
+                       "witness": smeta[i]}, concrete=True)
+    for m_ in smeta:
+        if not m_["shape_kept"]:
+            rep.violation({"kind": "correspondence", "obligation": "the sanitiser keeps the array's shape", "witness": m_}, concrete=True)
+            break
     nfails, nund = common.run_classify(IMPORTS, "", NUM_TYPE, nums, NUM_CHECKER) if nums else ([], [])
     for i in nfails:
         m = nmeta[i]
@@ -184,6 +250,8 @@ def run(rep: vk.Report):
                    "singular sets + 1 large finite point each; every entry of gradient, Jacobian and Hessian checked for finiteness, "
                    "regular entries by interval enclosure, vectorised vs general path entry by entry")
     cov["samples"] = [x_[:300] for x_ in nums[:3]]
+    cov["sanitiser_arrays"] = len(scases)
+    cov["sanitiser_disagreements"] = len(sfails)
     cov["entries_checked"] = entries
     cov["nonfinite_outputs"] = nonfinite
     cov["special_value_counts"] = special
@@ -191,7 +259,7 @@ def run(rep: vk.Report):
     cov["enclosure_singular_or_undecided"] = len(nund)
     cov["path_disagreements"] = path_diffs
     cov["path_histogram"] = dict(sorted(paths.items()))
-    cov["correspondence_failures"] = len(nfails) + nonfinite + path_diffs
+    cov["correspondence_failures"] = len(nfails) + nonfinite + path_diffs + len(sfails)
     cov["traces_validated_against_impl"] = entries
     rep.assumptions += ["NumPy's sin, cos, tanh, sign map finite inputs to values bounded by 1 (contract behind bounded_body)",
                         "entries whose true value is finite but beyond the binary64 range are outside the enclosure check (large points only check finiteness and path agreement)"]
